@@ -328,6 +328,20 @@ class Ctx:
         if len(self.cov["samples"]) < limit:
             self.cov["samples"].append(x)
 
+    def corpus(self):
+        """scenarios kept from earlier failures (corpus/<property>/*.json): they run first, through the same monitors"""
+        import glob
+        out = []
+        for f in sorted(glob.glob(os.path.join(ROOT, "corpus", self.prop, "*.json"))):
+            try:
+                sc = json.load(open(f))
+                sc["id"] = "corpus-" + os.path.splitext(os.path.basename(f))[0]
+                out.append(sc)
+            except Exception as e:
+                self.notes.append(f"corpus file {f} unreadable: {e}")
+        self.cov["corpus_cases"] = len(out)
+        return out
+
     def nontrivial(self, key):
         h = hashlib.sha256(json.dumps(key, sort_keys=True).encode()).hexdigest()
         self._nt.add(h)
